@@ -2,6 +2,7 @@
 From Coq Require Import ZArith List Bool.
 From FV Require Import Base.Ser Base.Res C12.Model C12.Proofs C12.ModelSpec.
 From FV Require C12.ProofsSpec C12.ProofsArity.
+From FV Require C12.ModelProg C12.ProofsProg.
 Import ListNotations.
 Open Scope Z_scope.
 
@@ -62,3 +63,10 @@ Theorem specialize_arities : forall pt ms segs,
   Forall (fun c : cmd => arity_legal (fst c) (length (snd c)) = true) (specialize pt ms segs).
 Proof. exact ProofsArity.specialize_arities. Qed.
 Print Assumptions specialize_arities.
+
+(* splitting a program into commands (width argument, mask bytes, stray arguments) and joining the commands again is the identity
+   on every program programToCommands accepts (ModelProg.v; blend operators aside) *)
+Theorem program_commands_roundtrip : forall prog cs,
+  ModelProg.programToCommands prog = Ok cs -> ModelProg.commandsToProgram cs = prog.
+Proof. exact ProofsProg.program_commands_roundtrip. Qed.
+Print Assumptions program_commands_roundtrip.
